@@ -179,6 +179,9 @@ def r1(ctx):
         shape_ok = isinstance(t, App) and t.fn == "numpy.zeros" and ((t.args and t.args[0] == Attr(k.A, "shape")) or t.kwarg("shape") == Attr(k.A, "shape")
                                                                       or (t.args and t.args[0] == Tup([k.T, k.K])))
         like = isinstance(t, App) and t.fn == "numpy.zeros_like" and t.args and t.args[0] == k.A
+        if not like and role == "P" and isinstance(t, App) and t.fn == "numpy.zeros_like" and t.args and t.args[0] == Sym(k.F):
+            # shaped like the cost-to-go table, whose own allocation (checked in the first round of this loop) has the cost table's shape
+            like = True
         dt = _dtype_name(t.kwarg("dtype")) if isinstance(t, App) else None
         if role == "F":
             ok = (shape_ok and (dt is None or dt in FLOAT64 or dt == "float")) or (like and dt in FLOAT64 | {"float"})
